@@ -303,25 +303,29 @@ func (h *H) phaseChain() {
 	type cfg struct {
 		srcNew, dstNew bool
 		kind           string
+		versions       []string
 	}
-	cfgs := []cfg{{false, false, "memory"}, {true, true, "pebble-mem"}, {false, true, "memory"}, {true, false, "pebble-mem"}}
+	all := []string{"0.13.2", "0.13.4", "0.14.0", "0.14.1"}
+	cfgs := []cfg{{false, false, "memory", []string{"0.13.2"}}, {true, true, "pebble-mem", []string{"0.13.4"}},
+		{false, true, "memory", []string{"0.14.0"}}, {true, false, "pebble-mem", []string{"0.14.1"}}}
 	if h.f.Thorough() {
-		cfgs = append(cfgs, cfg{false, false, "pebble-disk"}, cfg{true, true, "pebble-disk"})
+		cfgs = append(cfgs, cfg{false, false, "pebble-disk", all}, cfg{true, true, "pebble-disk", all})
 	}
 	blocks := h.f.Scale(40, 400)
 	for ci, c := range cfgs {
 		if !h.want("chain", ci) {
 			continue
 		}
-		h.chainCase(ci, c.srcNew, c.dstNew, c.kind, blocks)
+		h.chainCase(ci, c.srcNew, c.dstNew, c.kind, blocks, c.versions)
 	}
 }
 
-func (h *H) chainCase(ci int, srcNew, dstNew bool, kind string, blocks int) {
+func (h *H) chainCase(ci int, srcNew, dstNew bool, kind string, blocks int, versions []string) {
 	res := h.res
 	r := h.rng("chain", ci)
 	opt := lib.DefaultGenOptions()
 	opt.MaxTxs = 6
+	opt.Versions = versions
 	g := lib.NewChainGen(r, srcNew, opt)
 	be, err := h.openBackend(kind, fmt.Sprintf("chain%d", ci))
 	if err != nil {
